@@ -357,3 +357,103 @@ def rule_c05_orient_limits(r):
     ok = bool(gw) and pyval.same(pyval.call_arg(gw[0], pos=5, kw="limits"), sym("parameter.limits"))
     r.check(ok, "sasmodels/direct_model.py", "_pop_par_weights", "get_weights(..., limits = parameter.limits, ...)", gw[0][1].lineno if gw else dm.lineno,
             "the hard limits of the parameter bound its distribution")
+
+
+# --------------------------------------------------------------------------------------------- C-side state and numerics (per unit)
+PROCESS_STATE_CALLS = {"_mm_setcsr", "_mm_getcsr", "__builtin_ia32_ldmxcsr", "__builtin_ia32_stmxcsr", "fesetenv", "fesetround", "feenableexcept",
+                       "fedisableexcept", "feholdexcept", "feupdateenv", "feclearexcept", "feraiseexcept", "_controlfp", "_control87", "_clearfp",
+                       "setenv", "putenv", "srand", "rand", "setlocale", "signal", "_MM_SET_FLUSH_ZERO_MODE", "_MM_SET_DENORMALS_ZERO_MODE",
+                       "omp_set_num_threads", "malloc", "free", "fopen", "printf"}
+
+
+def cstate_unit(unit, extra):
+    """Worker: a generated unit keeps no state between calls and leaves the process state alone."""
+    from .. import cfront
+    from ..nf import c_callee, c_text, c_strip
+    out = []
+    KI = "sasmodels/kernel_iq.c"
+    file_scope = {d.get("id") for d in unit.ast.get("inner", []) if d.get("kind") == "VarDecl"}
+    nfun = 0
+    for fname, fn in sorted(unit.functions.items()):
+        body = unit.body(fn)
+        if body is None:
+            continue
+        nfun += 1
+        f, line = unit.where(fn)
+        bad = []
+        for n in cfront.walk(body):
+            k = n.get("kind")
+            if k == "VarDecl" and n.get("storageClass") == "static":
+                init_const = "const" in n.get("type", {}).get("qualType", "")
+                if not init_const:
+                    bad.append((n, "static local `%s` keeps a value from one call to the next" % n.get("name")))
+            elif k in ("GCCAsmStmt", "MSAsmStmt"):
+                bad.append((n, "inline assembly"))
+            elif k == "CallExpr":
+                cal = c_callee(n)
+                if cal in PROCESS_STATE_CALLS:
+                    bad.append((n, "call of %s changes or reads process-wide state (floating-point environment, allocator, I/O)" % cal))
+            elif k in ("BinaryOperator", "CompoundAssignOperator") and (n.get("opcode") == "=" or k == "CompoundAssignOperator"):
+                lhs = c_strip(n["inner"][0])
+                root = lhs
+                while root.get("kind") in ("ArraySubscriptExpr", "MemberExpr", "ImplicitCastExpr", "ParenExpr", "UnaryOperator"):
+                    root = root["inner"][0]
+                if root.get("kind") == "DeclRefExpr" and root.get("referencedDecl", {}).get("id") in file_scope:
+                    bad.append((n, "write to the file-scope variable `%s`" % root["referencedDecl"].get("name")))
+        for n, why in bad:
+            ff, ll = unit.where(n)
+            out.append(("R-C11-cstate", "violation", ff, "%s:%s" % (unit.name, fname), why[:70], ll,
+                        "a compiled kernel must be a pure function of its arguments: " + why))
+        if not bad:
+            out.append(("R-C11-cstate", "ok", f, "%s:%s" % (unit.name, fname), "no static locals, file-scope writes, asm or process-state calls", line, ""))
+    for h in getattr(unit, "unknown_headers", []):
+        out.append(("R-C11-cstate", "violation", KI, unit.name, "#include <%s>" % h, 0,
+                    "a system header outside the C99 math/stdint set the kernels are written against is included: its functions "
+                    "are not part of the pure computation"))
+    # numerics: difference of 1 and a cosine / exponential loses all significant digits for small arguments in float32
+    if unit.meta.get("single", True):
+        for fname, fn in sorted(unit.functions.items()):
+            body = unit.body(fn)
+            if body is None:
+                continue
+            ff0, _ = unit.where(fn)
+            if "/models/" not in (ff0 or "") or "/lib/" in (ff0 or ""):
+                continue
+            found = False
+            for n in cfront.walk(body):
+                if n.get("kind") == "BinaryOperator" and n.get("opcode") == "-":
+                    a, b = c_strip(n["inner"][0]), c_strip(n["inner"][1])
+                    def is_one(x):
+                        return x.get("kind") in ("FloatingLiteral", "IntegerLiteral") and float(x.get("value", 0)) == 1.0
+                    def is_call(x):
+                        return x.get("kind") == "CallExpr" and c_callee(x) in ("cos", "exp", "cosh")
+                    if (is_one(a) and is_call(b)) or (is_call(a) and is_one(b)):
+                        ff, ll = unit.where(n)
+                        found = True
+                        out.append(("R-C15-cancel", "violation", ff, "%s:%s" % (unit.name, fname), c_text(n)[:70], ll,
+                                    "1 - cos(x) / 1 - exp(x) in a model declared safe for single precision: for small x the float32 "
+                                    "result has no correct digits (use 2 sin^2(x/2) / expm1, or declare single = False)"))
+            if not found:
+                out.append(("R-C15-cancel", "ok", ff0, "%s:%s" % (unit.name, fname), "no 1 - cos / 1 - exp difference", 0, ""))
+    return out
+
+
+_cstate_cache = None
+
+
+def _cstate_results():
+    global _cstate_cache
+    if _cstate_cache is None:
+        from .. import cfront
+        _cstate_cache = cfront.map_units("sa.rules.extra3:cstate_unit")
+    return _cstate_cache
+
+
+def make_cstate_rule(rule_id):
+    def run(r):
+        for unit, rows in sorted(_cstate_results().items()):
+            for row in rows:
+                if row[0] == rule_id:
+                    _, status, f, fn, construct, line, detail = row
+                    getattr(r, status)(f, fn, construct, line, detail)
+    return run
